@@ -117,7 +117,14 @@ def load_known():
 def run_check(pid, tier, repo, seed, replay=None):
     ctx = Ctx(pid, tier, repo, seed)
     mod = importlib.import_module(f"sa.rules.{pid}")
-    mod.check(ctx)
+    try:
+        mod.check(ctx)
+    except (Unsupported, AnalysisError) as e:
+        # rule instances that already failed are reported; the part that could not be analysed is named
+        if not ctx.violations:
+            raise
+        ctx.cov["analysis_incomplete"] = f"{type(e).__name__}: {e}"
+        print(f"  (analysis stopped early after the violations below: {type(e).__name__}: {e})")
     return ctx, mod
 
 
